@@ -42,3 +42,24 @@ Theorem C19_f01_max : forall u, u < 4294967296 -> f01_num u <= 4294967040.
 Proof. exact f01_num_le. Qed.
 
 Example C19_i32_nonvacuous : ((-5) < 7 /\ 7 - (-5) <= 16777216)%Z. Proof. split; Lia.lia. Qed.
+
+(* ---- f32_minmax / f64_minmax never leave [min, max] ----
+   min + (max - min) * f with every operation rounded to nearest-even (binary32: 24 bits, emin -149; binary64: 53 bits,
+   emin -1074; Flocq's FLT format, overflow excluded by the property's bound on max - min), f = f32_0_1() =
+   f01_num u / 2^32 <= 1 - 2^-24: for all representable min <= max and every raw output.
+   Axioms: stdlib reals and Classical_Prop.classic (through Flocq). *)
+From Coq Require Import Reals.
+From Flocq Require Import Core.
+From SCAD Require Import Rng.Minmax_proofs.
+Theorem C19_minmax_any_precision : forall (emin prec : Z) (Hp : Prec_gt_0 prec), (24 <= prec)%Z ->
+  forall x y f : R, generic_format radix2 (FLT_exp emin prec) x -> generic_format radix2 (FLT_exp emin prec) y ->
+  (x <= y)%R -> (0 <= f <= 1 - bpow radix2 (-24))%R -> (x <= minmax emin prec x y f <= y)%R.
+Proof. intros emin prec Hp. exact (@minmax_in_range emin prec Hp). Qed.
+Theorem C19_f32_minmax_range : forall (mn mx : R) (u : N),
+  generic_format radix2 (FLT_exp (-149) 24) mn -> generic_format radix2 (FLT_exp (-149) 24) mx ->
+  (mn <= mx)%R -> (u < 4294967296)%N -> (mn <= f32_minmax_R mn mx u <= mx)%R.
+Proof. exact f32_minmax_range. Qed.
+Theorem C19_f64_minmax_range : forall (mn mx : R) (u : N),
+  generic_format radix2 (FLT_exp (-1074) 53) mn -> generic_format radix2 (FLT_exp (-1074) 53) mx ->
+  (mn <= mx)%R -> (u < 4294967296)%N -> (mn <= f64_minmax_R mn mx u <= mx)%R.
+Proof. exact f64_minmax_range. Qed.
